@@ -54,9 +54,12 @@ Definition find (fs : fsys) (name start : string) : find_res :=
   let paths := split_char sep start in
   walk fs name paths (List.length paths).
 
-(** str(Path(p).parent) for a normalised path string *)
+(** str(Path(p).parent): pathlib drops "." components (it keeps ".."), then
+    the last component is removed *)
+Definition not_dot (c : string) : bool := negb (String.eqb c ".").
+
 Definition path_parent (p : string) : string :=
-  let d := join "/" (removelast (split_char sep p)) in
+  let d := join "/" (removelast (filter not_dot (split_char sep p))) in
   if String.eqb d "" then (if starts_with "/" p then "/" else ".") else d.
 
 Inductive load_res :=
